@@ -67,7 +67,12 @@ func StateDiff(got, want *ref.State, pre *ref.State, in *ref.Info) (ds []Disc) {
 	if (g.F^w.F)&in.FMask != 0 {
 		ds = append(ds, Disc{KFlags, fmt.Sprintf("F=%02x want %02x (mask %02x)", g.F, w.F, in.FMask)})
 	}
-	if g.R != w.R {
+	if in.RLowFree {
+		// acknowledge cycle: 0 or 1 refresh increments, bit 7 kept
+		if g.R != w.R && g.R != (w.R&0x80|(w.R+1)&0x7f) {
+			ds = append(ds, Disc{KRefresh, fmt.Sprintf("R=%02x after an interrupt acknowledge from R=%02x", g.R, w.R)})
+		}
+	} else if g.R != w.R {
 		ok := false
 		if in.RAlt {
 			alt := w.R&0x80 | (w.R+1)&0x7f
